@@ -457,9 +457,9 @@ func (d *Discharger) run(name string, hyps []*Term, goal *Term, inputs []InputVa
 		if r.status == "unsat" {
 			return r
 		}
-		if r.status == "sat" && len(reveal) == 0 {
-			// The hypotheses left out share no symbol with the cone, so they cannot rule this model out
-			// (their own consistency is what the vacuity canary checks): the obligation fails.
+		if r.status == "sat" && len(reveal) == 0 && d.survey {
+			// survey only (speed): a model of the cone usually extends to the whole; the hypotheses left out could
+			// still be contradictory on their own (an infeasible path), so checks always go on to the full query
 			return r
 		}
 	}
@@ -721,6 +721,20 @@ func splitGoal(g *Term) []*Term {
 				out = append(out, mkImplies(g.Args[0], c))
 			}
 			return out
+		case "or":
+			// (A1 and A2) or P  ==  (A1 or P) and (A2 or P)
+			for i, a := range g.Args {
+				if parts := rec(a); len(parts) > 1 {
+					var rest []*Term
+					rest = append(rest, g.Args[:i]...)
+					rest = append(rest, g.Args[i+1:]...)
+					var out []*Term
+					for _, p := range parts {
+						out = append(out, mkOr(append([]*Term{p}, rest...)...))
+					}
+					return out
+				}
+			}
 		}
 		return []*Term{g}
 	}
